@@ -7,6 +7,7 @@ import (
 	"go/types"
 	"sort"
 	"strings"
+	"unicode/utf8"
 
 	"golang.org/x/tools/go/ssa"
 )
@@ -116,6 +117,7 @@ type ssaEval struct {
 
 	mem     map[string]sv
 	lists   map[string][]sv
+	iters   map[string]*strIter
 	effects []ssaEffect
 	path    []*ssa.BasicBlock
 	why     string // why the evaluation stopped early
@@ -123,6 +125,11 @@ type ssaEval struct {
 	steps   int
 	nalloc  int
 	intBits int
+}
+
+type strIter struct {
+	s   string
+	pos int
 }
 
 type frame struct {
@@ -632,8 +639,29 @@ func (e *ssaEval) instr(fr *frame, ins ssa.Instruction) {
 			set(x, a)
 		}
 	case *ssa.Range:
+		if a := e.val(fr, x.X); a.k == svString {
+			// iteration over a known string: the iterator is modelled
+			if e.iters == nil {
+				e.iters = map[string]*strIter{}
+			}
+			e.nalloc++
+			id := fmt.Sprintf("iter%d", e.nalloc)
+			e.iters[id] = &strIter{s: a.s}
+			set(x, sv{k: svSym, s: id})
+			return
+		}
 		set(x, symV("range("+e.val(fr, x.X).String()+")"))
 	case *ssa.Next:
+		if it := e.iters[e.val(fr, x.Iter).s]; it != nil && x.IsString {
+			if it.pos >= len(it.s) {
+				set(x, sv{k: svTuple, tup: []sv{boolV(false), intV(0), intV(0)}})
+				return
+			}
+			r, n := utf8.DecodeRuneInString(it.s[it.pos:])
+			set(x, sv{k: svTuple, tup: []sv{boolV(true), intV(int64(it.pos)), intV(int64(r))}})
+			it.pos += n
+			return
+		}
 		if e.call != nil {
 			if r, ok := e.call(nil, []sv{symV("next"), e.val(fr, x.Iter)}); ok {
 				set(x, r)
@@ -863,6 +891,9 @@ func (e *ssaEval) doCall(fr *frame, x *ssa.Call) sv {
 			return r
 		}
 	}
+	if r, ok := e.stringFunc(callName(x), args); ok {
+		return r
+	}
 	if fn := x.Call.StaticCallee(); fn != nil && len(fn.Blocks) > 0 && e.c.inModule(fn) && e.depth < 4 && (e.noInline == nil || !e.noInline(fn)) {
 		// closures: bind the free variables to the values of the bindings
 		sub := &frame{vals: map[ssa.Value]sv{}}
@@ -1037,4 +1068,43 @@ func (e *ssaEval) listAppend(l sv, vals []sv) sv {
 	}
 	cur, _ := e.elems(l)
 	return e.newList(append(append([]sv{}, cur...), vals...))
+}
+
+// stringFunc: pure functions of package strings on known arguments.
+func (e *ssaEval) stringFunc(name string, args []sv) (sv, bool) {
+	str := func(i int) (string, bool) {
+		if i < len(args) && args[i].k == svString {
+			return args[i].s, true
+		}
+		return "", false
+	}
+	switch name {
+	case "strings.IndexByte":
+		if a, ok := str(0); ok && len(args) == 2 && args[1].k == svInt {
+			return intV(int64(strings.IndexByte(a, byte(args[1].i)))), true
+		}
+	case "strings.HasPrefix":
+		a, ok1 := str(0)
+		b, ok2 := str(1)
+		if ok1 && ok2 {
+			return boolV(strings.HasPrefix(a, b)), true
+		}
+	case "strings.HasSuffix":
+		a, ok1 := str(0)
+		b, ok2 := str(1)
+		if ok1 && ok2 {
+			return boolV(strings.HasSuffix(a, b)), true
+		}
+	case "strings.Split":
+		a, ok1 := str(0)
+		b, ok2 := str(1)
+		if ok1 && ok2 {
+			var el []sv
+			for _, p := range strings.Split(a, b) {
+				el = append(el, sv{k: svString, s: p})
+			}
+			return e.newList(el), true
+		}
+	}
+	return sv{}, false
 }
